@@ -13,7 +13,8 @@ PROP = "C14"
 RULE = (
     "cases = (graph, operation, node subset S) triples; quick: EXHAUSTIVE over all 512 mixed graphs on 3 "
     "labelled nodes (cyclic included) x all 8 subsets x 15 operations, plus random ADMGs n=4..8 with hostile "
-    "classes (isolated, bidirected-only nodes, bows, chains), two insertion orders each, plus 30-step call "
+    "classes (isolated, bidirected-only nodes, bows, chains), two insertion orders each, plus two-world graphs over "
+    "counterfactual variables (two nodes sharing one name), plus 30-step call "
     "histories on one shared graph object with an aliasing probe (the harness mutates every returned graph and "
     "re-compares the receiver; acyclic graphs are additionally edited IN PLACE between calls - add/remove an edge, add a "
     "node - so that a stale per-object cache would answer for the old graph). Arguments stay inside the documented domain (S subset of V; sources and targets "
@@ -42,9 +43,7 @@ SET_OPS = ("subgraph", "remove_in_edges", "remove_out_edges", "remove_nodes_from
 
 
 def _vars(names):
-    from y0.dsl import Variable
-
-    return {Variable(n) for n in names}
+    return {gg.node(n) for n in names}
 
 
 def _result_rg(res):
@@ -129,7 +128,7 @@ def apply_ops(ctx, gd, S_names, acyclic, alias=False, ops=None):
     run("moralize", g.moralize, uses_set=False)
     run("disorient", g.disorient, uses_set=False)
     if S:
-        iv = {(+v if i % 2 else -v) for i, v in enumerate(sorted(S))}
+        iv = {(+v if i % 2 else -v) for i, v in enumerate(sorted(S, key=str))}
         run("intervene", lambda: g.intervene(iv))
     if acyclic:
         run("topological_sort", g.topological_sort, uses_set=False)
@@ -217,6 +216,14 @@ def run_shard(ctx):
                 kernel.LOG.reset_case({"graph": gd, "graph2": gd2, "op": op, "S": sorted(S)})
                 kernel.violation(PROP, "insertion-order", f"{op} differs between two insertion orders of one graph")
     ctx.extras["hostile_classes"] = hostile_seen
+    # 2b. graphs over counterfactual variables: two nodes share one ``.name`` (A and A@-x), as in the parallel-worlds
+    # and counterfactual graphs ID* builds - the definitions speak about nodes, never about their names
+    twin_ops = set(SET_OPS) | {"districts", "moralize", "disorient", "topological_sort", "pre", "pre(order)",
+                               "get_nodes_in_directed_paths"}
+    for _ in range(ctx.share({"quick": 500, "thorough": 12000}[ctx.tier])):
+        gd = gg.twin_worlds(gg.random_admg(rng, rng.randint(2, 4)), rng)
+        S = rng.sample(gd["nodes"], rng.randint(1, min(3, len(gd["nodes"]) - 1)))
+        apply_ops(ctx, gd, S, True, alias=True, ops=twin_ops)
     # 3. histories
     for _ in range(ctx.share({"quick": 64, "thorough": 1600}[ctx.tier])):
         gd = gg.random_admg(rng, rng.randint(3, 7))
